@@ -130,6 +130,8 @@ func errCode(err error) int {
 		return 10
 	case strings.Contains(s, "file missing for"):
 		return 11
+	case strings.Contains(s, "is not in the archive"):
+		return 13
 	case strings.Contains(s, "failed checking integrity of snapshot"):
 		return 8 // scanner / Sscanf error
 	default:
